@@ -1,4 +1,5 @@
 """C10  Mutable reads return only published versions."""
+import os
 import struct
 
 from core import term as T
@@ -161,6 +162,65 @@ def run(ctx):
             info[ix]["field"], "succeeded"), case=info[ix], correspondence="targeted-field-corruption-vs-symbolic-model")
     ctx.trace(len(terms) - len(bad))
     oracle_stream(ctx, G, OFF)
+    vanishing_share_cases(ctx, G)
+
+
+def vanishing_share_cases(ctx, G, only=None):
+    """Shares that disappear (or get damaged) on their server DURING a read: after the server has answered the read's
+    survey, before the block is fetched.  The share is larger than the prefix the survey caches, so the fetch really
+    asks again.  At least k other intact shares of the newest version stay reachable: the read must succeed."""
+    ctx.correspondence("grid-corruption-oracle")
+    n = ctx.n(8, 40)
+    for i in (range(n) if only is None else [only]):
+        r = ctx.rng("vanish", i)
+        seed = r.getrandbits(30)
+        fmt = ["sdmf", "mdmf"][i % 2]
+        k, N = [(3, 10), (2, 5), (3, 6), (1, 4)][(i // 2) % 4]
+        size = r.choice([12000, 20000, 60000]) + r.randrange(100)
+        how = ["unlink", "unlink", "truncate", "unlink"][(i // 2) % 4] if i >= 4 else "unlink"
+        data = bytes((j * 7 + i) % 251 for j in range(size))
+        case = {"seed": seed, "k": k, "N": N, "format": fmt, "size": size, "how": how, "vanish_index": i, "run_seed": ctx.seed}
+        with G.Grid(num_clients=2, num_servers=N, k=k, n=N, happy=1, seed=seed, timeout=240) as g:
+            node = g.run(g.create_mutable(data, version=fmt))
+            si = g._si(node.get_uri())
+            shs = sorted(g.find_shares(node.get_uri()), key=lambda x: x.shnum)
+            # the lowest-numbered shares are the ones a reader asks first; always at least k stay
+            nv = r.randrange(1, max(2, min(k + 1, len(shs) - k + 1)))
+            victims = shs[:nv] if i % 3 != 2 else r.sample(shs, nv)
+            case["victims"] = [x.shnum for x in victims]
+            saved = []
+            for sh in victims:
+                ss = g.server(sh.server)
+                orig = ss.slot_readv
+
+                def slot_readv(storage_index, shnums, readv, orig=orig, path=sh.path, si=si, how=how):
+                    res = orig(storage_index, shnums, readv)
+                    if storage_index == si and os.path.exists(path):
+                        if how == "unlink":
+                            os.unlink(path)             # the server loses the share right after answering
+                        else:
+                            with open(path, "r+b") as f:
+                                f.truncate(os.path.getsize(path) // 2)
+                    return res
+                ss.slot_readv = slot_readv
+                saved.append(ss)
+            cap = node.get_uri() if i % 4 < 2 else node.get_readonly_uri()
+            out = g.run(g.mutable_read(cap, client=1), outcome=True)
+            for ss in saved:
+                del ss.slot_readv
+        ctx.case((seed, "vanish", i), kind="oracle:%s:share-vanishes-during-read" % fmt)
+        if out.status in ("hung", "timeout"):
+            ctx.oracle_fail("mutable-read-never-finished", "read during which %d share(s) vanish: %s" % (nv, out.status), case=case)
+        elif out.status == "ok" and out.value != data:
+            ctx.oracle_fail("read-returned-unpublished-bytes", "read during which shares vanish returned bytes that were never published", case=case,
+                            expected=data[:40], observed=out.value[:40])
+        elif out.status != "ok":
+            ctx.oracle_fail("read-failed-with-k-intact-newest-shares", "read failed (%s) although %d intact shares of the newest version stay reachable (k=%d): "
+                            "share(s) %s %s on their server after it answered the read's survey" % (
+                                out.error, N - nv, k, case["victims"], "vanish" if how == "unlink" else "are cut short"), case=case)
+        else:
+            ctx.trace(1)
+            ctx.sample(case, limit=3)
 
 
 def oracle_stream(ctx, G, OFF, only=None):
@@ -421,6 +481,10 @@ def replay(ctx, rec):
     from core import grid as G
     from allmydata.storage.mutable import MutableShareFile
     case = rec.get("case") or {}
+    if "vanish_index" in case:
+        ctx.seed = case.get("run_seed", ctx.seed)
+        vanishing_share_cases(ctx, G, only=case["vanish_index"])
+        return {"failures": [f["what"] for f in ctx.failures]}
     if "index" not in case:
         return "no single-case replay for this record"
     ctx.seed = case.get("run_seed", ctx.seed)
